@@ -21,6 +21,7 @@ def gen(ctx, q):
              "g2.cfg": CFG % dict(calls=2, tops="TopsLight", body="INVARIANTS Emit"),
              "g3.cfg": CFG % dict(calls=3, tops="TopsCore", body="INVARIANTS Emit"),
              "reuse.cfg": CFG % dict(calls=3, tops="Reuse", body="INVARIANTS Emit"),
+             "deepreuse.cfg": CFG % dict(calls=2, tops="DeepReuse", body="INVARIANTS Emit"),
              "heavy.cfg": CFG % dict(calls=2, tops="Heavy", body="INVARIANTS Emit"),
              "sim.cfg": CFG % dict(calls=6 if q else 8, tops="TopsAll" if not q else "TopsLight", body="INVARIANTS Emit")}
     ctx.tlc("CallsMC", "mc.cfg", extra_files=files, tag="design")
@@ -34,6 +35,7 @@ def gen(ctx, q):
     beh += heavy if not q else rnd.sample(heavy, min(8, len(heavy)))
     # stack overflow, then the SAME function object again (finite this time), then again
     beh += ctx.tlc("CallsMC", "reuse.cfg", extra_files=files, design=False, tag="gen:overflow-then-reuse")["emitted"]
+    beh += ctx.tlc("CallsMC", "deepreuse.cfg", extra_files=files, design=False, tag="gen:deep-failure-then-deep-recursion")["emitted"]
     beh += ctx.tlc("CallsMC", "sim.cfg", extra_files=files, design=False, tag="sim", workers=1,
                    simulate="num=%d" % (300 if q else 8000), depth=12)["emitted"]
     ctx.extra["histories"] = {"pairs_enumerated": n2, "replayed": len(beh)}
